@@ -683,3 +683,56 @@ func directiveArgsNotKeywords(c *Ctx, r *Report, rule string) {
 	}
 	r.check(n > 0 && len(bad) == 0, rule, "zlexer.Next", c.pos(fn.Pos()), "keyword search ended behind a directive", "Next can return at %s with a directive as the first token of the line and the keyword search still on: the arguments of the directive are looked up as type and class keywords, and a name that is or starts like a keyword ($ORIGIN mx, $ORIGIN types.example.org. ; c, $INCLUDE types.db sub, $GENERATE 1-2 type$ ...) is refused", strings.Join(uniqStrings(bad), ", "))
 }
+
+// typeSpellingsAgree (F78): wherever zlexer.Next looks a token up as a type mnemonic, the TYPEnnn spelling is tried
+// on the miss: the arm that ends a token at a blank and the arm that ends it at the end of the line classify alike.
+func typeSpellingsAgree(c *Ctx, r *Report, rule string) {
+	r.rule(rule, 2, "every mnemonic lookup of a type in zlexer.Next is followed, on its miss, by the TYPEnnn reader")
+	fn := c.ssaFunc("zlexer.Next")
+	if fn == nil {
+		r.cerr(rule, "zlexer.Next", "function not found")
+		return
+	}
+	r.fn("zlexer.Next")
+	n := 0
+	allInstrs(fn, func(in ssa.Instruction) {
+		lk, ok := in.(*ssa.Lookup)
+		if !ok || !lk.CommaOk || !anyIn(sliceOf(lk.X), isGlobal("StringToType")) {
+			return
+		}
+		n++
+		construct := fmt.Sprintf("zlexer.Next:lookup#%d", n)
+		// the block that tests ok
+		var missEdge *ssa.BasicBlock
+		for _, ref := range *lk.Referrers() {
+			ex, isEx := ref.(*ssa.Extract)
+			if !isEx || ex.Index != 1 || ex.Referrers() == nil {
+				continue
+			}
+			for _, r2 := range *ex.Referrers() {
+				if iff, isIf := r2.(*ssa.If); isIf {
+					missEdge = iff.Block().Succs[1]
+				}
+			}
+		}
+		if missEdge == nil {
+			r.undecided(rule, construct, c.pos(lk.Pos()), "the test of the lookup's ok result was not found")
+			return
+		}
+		found := false
+		for b := range reach(missEdge, nil, nil) {
+			if len(b.Preds) > 1 && !missEdge.Dominates(b) {
+				continue
+			}
+			for _, x := range b.Instrs {
+				if cl, isCall := x.(*ssa.Call); isCall && calleeNameSSA(&cl.Call) == "typeToInt" {
+					found = true
+				}
+			}
+		}
+		r.check(found, rule, construct, c.pos(lk.Pos()), "typeToInt tried on the miss", "the type lookup at %s gives up on a miss without trying the TYPEnnn spelling: a type written TYPEnnn is refused in this position where its mnemonic is accepted (a record without RDATA: 'example. 3600 IN TYPE1')", c.pos(lk.Pos()))
+	})
+	if n == 0 {
+		r.cerr(rule, "zlexer.Next", "no lookup in StringToType found")
+	}
+}
